@@ -19,7 +19,7 @@ from .c02 import _walk_vars
 PROP = "C05"
 THEOREMS = _T.get(PROP, [])
 ARB = "97/13"
-FP_ITERS = [100, 1, 3, 0]
+FP_ITERS = [100, 1, 3, 0, 2]
 
 
 def _val(s):
@@ -40,7 +40,7 @@ def run(tier):
     jobs = []
     for ci, c in enumerate(cases):
         c["text_used"] = c.get("text") or case_text(c)
-        its = FP_ITERS if not quick else [FP_ITERS[0]] + ([FP_ITERS[1 + ci % 3]] if ci % 2 == 0 else [])
+        its = FP_ITERS if (not quick or c.get("corpus")) else [FP_ITERS[0]] + ([FP_ITERS[1 + ci % 4]] if ci % 2 == 0 else [])
         for it in its:
             jobs.append((c, it))
     tasks = [{"fn": "harness.tasks.normalize:recurrences",
